@@ -18,7 +18,8 @@ func init() {
 	}
 	add(&quick, 1, 1, 1, 1, 0, 1)
 	// the parent context ends before / while Close runs (the order Bootstrap.Shutdown uses)
-	for _, c := range [][]int64{{1, 1, 1, 2, 0, 0, 6}, {2, 0, 2, 1, 1, 1*8 + 0, 7},
+	for _, c := range [][]int64{{2, 0, 1, 2, 0, 0, 8}, {1, 0, 1, 1, 0, 1, 8},
+		{1, 1, 1, 2, 0, 0, 6}, {2, 0, 2, 1, 1, 1*8 + 0, 7},
 		{1, 1, 1, 2, 0, 0, 4}, {2, 0, 1, 2, 0, 1, 4}, {1, 1, 1, 2, 0, 0, 5}, {2, 1, 2, 1, 1, 1*8 + 0, 4}} {
 		quick = append(quick, &Job{Pkg: "", Func: "ZZ_C06_Close", Args: c, Bounds: b + "; the channel's parent context is cancelled before (4) or concurrently with (5) Close"})
 	}
